@@ -143,7 +143,18 @@ func (p *GleecePipeline) GenerateIntermediate() (GleeceFlattenedMetadata, error)
 }
 
 func (p *GleecePipeline) getReducedControllers() ([]definitions.ControllerMetadata, error) {
-	controllers, err := p.reduceControllers(p.getControllers())
+	// The graph hands controllers out in map iteration order. Reduction assigns the unique import
+	// serials on a first-come basis so the controllers must be ordered *before* they are reduced,
+	// otherwise the generated import aliases differ from run to run.
+	rawControllers := p.getControllers()
+	slices.SortStableFunc(rawControllers, func(a, b metadata.ControllerMeta) int {
+		if byName := strings.Compare(a.Struct.Name, b.Struct.Name); byName != 0 {
+			return byName
+		}
+		return strings.Compare(a.Struct.PkgPath, b.Struct.PkgPath)
+	})
+
+	controllers, err := p.reduceControllers(rawControllers)
 	if err != nil {
 		logger.Error("Failed to reduce controller tree to flat form: %w", err)
 		return []definitions.ControllerMetadata{}, err
